@@ -95,9 +95,22 @@ func c15(r *core.Report) {
 	// ---- C15-DEMUX-ERR and C15-DISPATCH
 	r.Rule("C15-DEMUX-ERR", "on the error edge of the demux call no channel lookup or delivery is reachable", 2)
 	r.Rule("C15-DISPATCH", "delivery goes to the hub of the swarm looked up for the channel id demultiplexed from this message", 7)
+	// every function of the package that calls the demultiplexing function (handleRecv and serveLoop's
+	// callback on the pinned tree; a helper they are split into is found the same way)
 	var sites []*ssa.Function
-	sites = append(sites, core.WithAnons(handleRecv)...)
-	sites = append(sites, core.WithAnons(serveLoop)...)
+	seenSite := map[*ssa.Function]bool{}
+	for _, f := range p.ModFuncs {
+		if f.Pkg == nil || f.Pkg.Pkg.Path() != core.ModPath+"/p/p2pmux" {
+			continue
+		}
+		for _, g := range core.WithAnons(f) {
+			if !seenSite[g] {
+				seenSite[g] = true
+				sites = append(sites, g)
+			}
+		}
+	}
+	_, _ = handleRecv, serveLoop
 	nDemux := 0
 	for _, fn := range sites {
 		for _, ci := range core.Calls(fn, func(ci ssa.CallInstruction) bool { return isDemuxCall(ci.Common()) }) {
